@@ -88,6 +88,9 @@ POSITIONS = {
     "name": lambda c: HEAD + f"a{c}b = 1\nEND\n",
     "unquoted": lambda c: HEAD + f"k = a{c}b\nEND\n",
     "quoted": lambda c: HEAD + f'k = "a{c}b"\nEND\n',
+    "quoted-first": lambda c: HEAD + f'k = "{c}ab"\nEND\n',
+    "quoted-last": lambda c: HEAD + f'k = "ab{c}"\nEND\n',
+    "quoted-only": lambda c: HEAD + f'k = "{c}"\nEND\n',
     "comment": lambda c: HEAD + f"/* a{c}b */\nk = 1\nEND\n",
     "units": lambda c: HEAD + f"k = 1 <a{c}b>\nEND\n",
     "between": lambda c: HEAD + f"k = 1\n {c}\nj = 2\nEND\n",
@@ -119,7 +122,10 @@ def _gap_text(i, c, glue):
 for _i in range(1, len(GAP_TOKENS)):
     POSITIONS[f"gap{_i:02d}"] = (lambda c, _i=_i: _gap_text(_i, c, False))
     POSITIONS[f"glue{_i:02d}"] = (lambda c, _i=_i: _gap_text(_i, c, True))
-BASIC_SET = {"name", "unquoted", "quoted", "comment", "units", "between", "after-END",
+QUOTED_SHAPES = {"quoted": "a{}b", "quoted-first": "{}ab", "quoted-last": "ab{}",
+                 "quoted-only": "{}"}
+BASIC_SET = {"name", "unquoted", "quoted", "quoted-first", "quoted-last", "quoted-only",
+             "comment", "units", "between", "after-END",
              "lone-line-end", "quoted-2nd-line", "comment-3rd-line", "units-2nd-line"}
 GAP_EXTRA = {0x100, 0x17F, 0x3B1, 0x2028, 0x20AC, 0xD7FF, 0xD800, 0xDFFF, 0xE000, 0xFEFF,
              0xFFFF, 0x10000, 0x1F600, 0x10FFFF}
@@ -196,16 +202,18 @@ def check_one(cfg, posname, o):
             return (f"C15/{gname}/allowed-rejected/{posname}",
                     f"{cfg}: U+{o:04X} is in the character set but was rejected "
                     f"in {posname} position")
-        if cfg == "default" and posname in ("quoted", "comment", "quoted-2nd-line",
+        if cfg == "default" and posname in ("quoted", "quoted-first", "quoted-last",
+                                            "quoted-only", "comment",
+                                            "quoted-2nd-line",
                                             "comment-3rd-line") and c != '"':
             return (f"C15/default/rejected/{posname}",
                     f"default loader failed for U+{o:04X} in {posname}: {e!r}")
         return None
-    if posname == "quoted" and c != '"':  # (only the one-line template)
+    if posname in QUOTED_SHAPES and c != '"':  # (only the one-line templates)
         m = outcome[1]
         n = nm.Norm(folding=cfg in ("ODL", "PDS3", "default") or cfg.endswith("-loads"),
                     omni=cfg == "default" or cfg.endswith("-loads"))
-        want = n.string("a" + c + "b")
+        want = n.string(QUOTED_SHAPES[posname].format(c))
         try:
             got = m["k"]
         except Exception:
